@@ -46,9 +46,11 @@ Definition thr_of (t : option (bool * Z * Q)) : option Q :=
   | Some (true, w, _) => Some (weight_to_prob w)      (* integer match weight *)
   | Some (false, _, p) => Some p
   end.
-(* final output: impl (in node-table order) = spec comp_labels, and (when `full`) = the model *)
-Definition run_case (c : list Z * list (Z * Z * Q) * option (bool * Z * Q) * list (Z * Z) * bool) : bool :=
-  match c with (nodes, edges, t, impl, full) =>
+(* final output: impl (in node-table order) = spec comp_labels, and (when `full`) = the model;
+   `iters` = number of passes of the while loop the implementation made, when observed *)
+Definition FC := (list Z * list (Z * Z * Q) * option (bool * Z * Q) * list (Z * Z) * bool * option nat)%type.
+Definition run_case (c : FC) : bool :=
+  match c with (nodes, edges, t, impl, full, iters) =>
     let thr := thr_of t in
     list_eqb impl (comp_labels nodes (thr_edges thr edges))
     && (if full then match cluster_at_threshold nodes edges thr with
@@ -56,6 +58,11 @@ Definition run_case (c : list Z * list (Z * Z * Q) * option (bool * Z * Q) * lis
                      | None => false
                      end
         else true)
+    && match iters with
+       | None => true
+       | Some k => let '(r0, nb) := cc_init nodes (thr_edges thr edges) in
+                   Nat.eqb (length (cc_trace (cc_fuel nodes) r0 nb)) k
+       end
   end.
 (* lock-step: every captured table equals the model's table of the same name, as a set *)
 Definition iter_eqb (m : cc_iter) (e : list rrow * list (Z * Z) * list rrow) : bool :=
@@ -68,17 +75,18 @@ Fixpoint iters_eqb (ms : list cc_iter) (es : list (list rrow * list (Z * Z) * li
   | m :: ms', e :: es' => iter_eqb m e && iters_eqb ms' es'
   | _, _ => false
   end.
-Definition run_trace (c : list Z * list (Z * Z * Q) * option (bool * Z * Q) *
-                          (list (Z * Z) * list rrow * list (list rrow * list (Z * Z) * list rrow))) : bool :=
+Definition TC := (list Z * list (Z * Z * Q) * option (bool * Z * Q) *
+                  (list (Z * Z) * list rrow * list (list rrow * list (Z * Z) * list rrow)))%type.
+Definition run_trace (c : TC) : bool :=
   match c with (nodes, edges, t, (nb0, r0, its)) =>
     let E := thr_edges (thr_of t) edges in
     let '(mr0, mnb) := cc_init nodes E in
     same_set zz_eqb mnb nb0 && same_set row_eqb mr0 r0
     && iters_eqb (cc_trace (cc_fuel nodes) mr0 mnb) its
   end.
-Definition run_any (c : (list Z * list (Z * Z * Q) * option (bool * Z * Q) * list (Z * Z) * bool) +
-                        (list Z * list (Z * Z * Q) * option (bool * Z * Q) *
-                          (list (Z * Z) * list rrow * list (list rrow * list (Z * Z) * list rrow)))) : bool :=
+Definition mkF (c : FC) : FC + TC := inl c.
+Definition mkT (c : TC) : FC + TC := inr c.
+Definition run_any (c : FC + TC) : bool :=
   match c with inl a => run_case a | inr b => run_trace b end.
 """
 
@@ -142,7 +150,7 @@ CAPTURE_PREFIXES = ("__splink__df_representatives", "__splink__representatives_s
                     "__splink__df_neighbours")
 
 
-def _capturing_api(backend):
+def _capturing_api(backend, names_only=False):
     api = su.make_api(backend)
     cap = []
     orig = api.sql_pipeline_to_splink_dataframe
@@ -151,7 +159,7 @@ def _capturing_api(backend):
         sdf = orig(pipeline, use_cache)
         name = sdf.templated_name
         if name.startswith(CAPTURE_PREFIXES):
-            cap.append((name, sdf.as_record_dict()))
+            cap.append((name, None if names_only else sdf.as_record_dict()))
         return sdf
 
     api.sql_pipeline_to_splink_dataframe = wrap
@@ -176,7 +184,7 @@ def run_impl(case, capture=False):
     """Returns (rows, captured) : rows = [(node_key, cluster_key)]."""
     backend = case["backend"]
     if capture:
-        api, cap = _capturing_api(backend)
+        api, cap = _capturing_api(backend, names_only=(capture == "count"))
     else:
         api, cap = su.make_api(backend), []
     kw = _thr_kwargs(case["thr"])
@@ -255,6 +263,10 @@ def canonical_output(case, rows):
     return [(rk[key_of(x)], rk[seen[key_of(x)]]) for x in case["nodes"]], None
 
 
+def iteration_count(cap):
+    return sum(1 for name, _ in cap if name.startswith("__splink__df_representatives_"))
+
+
 def _flag(v):
     return bool(v)
 
@@ -310,10 +322,11 @@ def coq_inputs(case):
     return nodes, edges, t
 
 
-def coq_final_term(case, impl, full):
+def coq_final_term(case, impl, full, iters=None):
     nodes, edges, t = coq_inputs(case)
     out = coq_list([_zz(a, b) for a, b in impl], "(Z * Z)")
-    return f"(inl ({nodes}, {edges}, {t}, {out}, {coq_bool(full)}))"
+    it = "None" if iters is None else f"(Some {int(iters)}%nat)"
+    return f"(mkF ({nodes}, {edges}, {t}, {out}, {coq_bool(full)}, {it}))"
 
 
 def coq_trace_term(case, trace):
@@ -322,7 +335,7 @@ def coq_trace_term(case, trace):
     its_s = coq_list([f"({coq_list([_row(r) for r in st], 'rrow')}, {coq_list([_zz(*x) for x in nb], '(Z * Z)')}, "
                       f"{coq_list([_row(r) for r in rp], 'rrow')})" for st, nb, rp in its],
                      "(list rrow * list (Z * Z) * list rrow)")
-    return (f"(inr ({nodes}, {edges}, {t}, ({coq_list([_zz(*x) for x in nb0], '(Z * Z)')}, "
+    return (f"(mkT ({nodes}, {edges}, {t}, ({coq_list([_zz(*x) for x in nb0], '(Z * Z)')}, "
             f"{coq_list([_row(r) for r in r0], 'rrow')}, {its_s})))")
 
 
@@ -431,7 +444,7 @@ def make_ids(rng, n, idkind, link_type=None):
                 vals.add(rng.choice(["x", "X", "_", "a-", "a_", "a"]) + str(rng.randrange(0, 3 * n + 9)))
         return sorted(vals)
     # composite: same unique_id in several datasets
-    names = rng.choice([["ta", "tb"], ["a", "a_b", "b"], ["d1", "d10", "d2"], ["A", "a"]])
+    names = rng.choice([["ta", "tb"], ["a", "a_b", "b"], ["d1", "d10", "d2"], ["X", "Y"]])
     uid_str = rng.random() < 0.3
     vals = set()
     pool = max(2, (n + len(names) - 1) // len(names) + rng.randint(0, 2))
